@@ -2,6 +2,7 @@ package rtsp
 
 import (
 	"bufio"
+	"fmt"
 	"net"
 
 	"github.com/cnotch/xlog"
@@ -69,3 +70,8 @@ func (s *Session) VerifNonce() string     { return s.nonce }
 func (s *Session) VerifSessionID() string { return s.lsession }
 
 // VerifNewPullClient etc. are added with the C20 harness.
+
+// VerifTransport renders the negotiated transport (mode, type, interleaved channels, client ports).
+func (s *Session) VerifTransport() string {
+	return fmt.Sprint(int(s.transport.Mode), int(s.transport.Type), s.transport.Channels, s.transport.ClientPorts)
+}
